@@ -303,6 +303,25 @@ ADDED7 = {
 }
 
 
+ADDED8 = {
+ 'C02': ('', ' Round 8: every header line read is stored before the next is read (no cap / filter on the fields kept); Request.address is assigned by the parser only.'),
+ 'C03': ('', ' Round 8: the assumption behind the quoted-value slice — a match of P*S leaves room for both parts — is checked on the matcher (no independent starts_with / ends_with without a length test).'),
+ 'C06': ('', ' Round 8: the cache stores a value under its own key by remove-then-append (C16 replace / stored rules borrowed), so a served body is the file of the requested path.'),
+ 'C07': ('', ' Round 8: the end of the chunk list is never an error (empty chunked body); consume(n) only with an amount taken from fill_buf.'),
+ 'C08': ('', ' Round 8: no panic site between taking a task off the queue and calling it.'),
+ 'C09': ('', ' Round 8: consume(n) only with an amount taken from fill_buf (shared with C07).'),
+ 'C10': ('', ' Round 8: every Frame the decoder returns is the aggregate of the parsed header fields, its only errors are ReadError / InvalidOpcode; Frame.payload / Frame.length are not changed after construction; no buffering reader dropped at return and no bare read() larger than the 2 header bytes on the frame path.'),
+ 'C11': ('', ' Round 8: frame fields frozen, decoder outcomes and no dropped read-ahead (shared with C10).'),
+ 'C12': ('', ' Round 8: nothing on the poll\'s read path takes bytes off the socket that it does not use (C10 rule).'),
+ 'C14': ('', ' Round 8: the array a tuple struct serialises to is the n-element vector as built; integer FromJson casts the number to its own type (no detour through a narrower integer).'),
+ 'C15': ('', ' Round 8: matcher assumption behind the quoted-value slice (shared with C03).'),
+ 'C17': ('', ' Round 8: the user list is searched independently of its order, or no method disturbs the order a binary search relies on.'),
+ 'C18': ('', ' Round 8: the encoders\' length arithmetic does not underflow on the empty input.'),
+ 'C19': ('', ' Round 8: every header line is seen (shared with C02); Request.address is the one derived from this request.'),
+ 'C20': ('', ' Round 8: the wake-up connect is not retried in a loop between signal and join; worker ids are vector indices (C08 rule; a recovery join of the wrong worker blocks the pool\'s Drop).'),
+}
+
+
 NOT_APPLICABLE = {
     "C05": "Correctness of the wildcard matcher is a language-equivalence fact about a loop with data-dependent backtracking over all "
            "(pattern, text) pairs; no necessary condition visible in the shape of the code separates the current (wrong on '*aab'/'aaab') "
@@ -333,6 +352,8 @@ def main():
                 tech, text = tech + ADDED6[pid][0], text + ADDED6[pid][1]
             if pid in ADDED7:
                 tech, text = tech + ADDED7[pid][0], text + ADDED7[pid][1]
+            if pid in ADDED8:
+                tech, text = tech + ADDED8[pid][0], text + ADDED8[pid][1]
             checks.append({
                 "property_id": pid,
                 "quick_cmd": f"./check {pid} --tier quick",
